@@ -35,6 +35,9 @@ type c17Line struct {
 	Dhi      *int       `json:"dhi,omitempty"`
 	Ok       bool       `json:"ok"`
 	Rules    [][]uint16 `json:"rules"`
+	Side     string     `json:"side,omitempty"` // op parse: which endpoint of the flow description carried the port text
+	Rlo      *int       `json:"rlo,omitempty"`  // op parse: the range the parser returned
+	Rhi      *int       `json:"rhi,omitempty"`
 }
 
 func ip(i int) *int { return &i }
@@ -161,8 +164,42 @@ func c17Worker(args []string) error {
 		emit(l)
 	}
 
+	// the textual form of a range in a flow description ("lo-hi" after the address of one endpoint): what the parser
+	// hands to the expansion functions.  lo > hi is sent too (it must be refused, not read as something else).
+	parse := func(lo, hi int, side string) {
+		if !mine() {
+			return
+		}
+
+		txt := fmt.Sprintf("%d-%d", lo, hi)
+		desc := "permit out udp from 10.1.0.0/16 " + txt + " to assigned"
+
+		if side == "dst" {
+			desc = "permit out udp from any to 10.2.0.0/16 " + txt
+		}
+
+		fd, err := pfcpiface.VerifParseFlowDesc(desc, "10.250.0.7")
+		l := c17Line{Op: "parse", Lo: ip(lo), Hi: ip(hi), Ok: err == nil, Side: side, Rlo: ip(0), Rhi: ip(0)}
+
+		if err == nil && fd != nil {
+			if side == "dst" {
+				l.Rlo, l.Rhi = ip(int(fd.DstLow)), ip(int(fd.DstHigh))
+			} else {
+				l.Rlo, l.Rhi = ip(int(fd.SrcLow)), ip(int(fd.SrcHigh))
+			}
+		}
+
+		emit(l)
+	}
+
 	// (i) all pairs of boundary values, every function
 	b := c17Boundary()
+	for i, lo := range b {
+		for j, hi := range b {
+			parse(lo, hi, []string{"src", "dst"}[(i+j)%2])
+		}
+	}
+
 	for _, lo := range b {
 		for _, hi := range b {
 			if lo <= hi {
